@@ -1,6 +1,7 @@
 import NirVerif.Properties.C18
 import NirVerif.Properties.C03
 import NirVerif.Lemmas.Idempotent
+import NirVerif.Lemmas.IdempotentConv2d
 
 /-! # C13 — the dictionary form is a faithful, independent copy
 
@@ -112,6 +113,20 @@ theorem roundtrip_exact (kind : String) (kw : List (String × Val)) (n : Node) (
     simp only [Node.kind, Node.children, Node.edges, Node.fields, Node.metadata] at hkind hc he hnt hidem
     subst hkind hc he
     rw [roundtrip k f i o m hw hg hnt]
+    exact hidem
+
+/-- … and the same for **Conv2d**, whose constructor normalises integer stride / padding /
+dilation to pairs: on the stored (paired) values it is the identity. -/
+theorem roundtrip_exact_conv2d (kw : List (String × Val)) (n : Node) (h : construct "Conv2d" kw = .ok n) :
+    (toDict n).bind fromDict = .ok n := by
+  obtain ⟨hkind, hc, he⟩ := construct_kind "Conv2d" kw n h
+  obtain ⟨hnt, _⟩ := construct_conv2d_clean kw n h
+  have hidem := construct_idem_conv2d kw n h
+  cases n with
+  | mk k f i o m c e =>
+    simp only [Node.kind, Node.children, Node.edges, Node.fields, Node.metadata] at hkind hc he hnt hidem
+    subst hkind hc he
+    rw [roundtrip "Conv2d" f i o m (by decide) (by decide) hnt]
     exact hidem
 
 /-- Non-vacuity: a Conv1d with an erased (`None`) input shape — which the file form cannot
